@@ -42,7 +42,10 @@ def main(seed, ncases, driver, out):
             else:
                 ev = tuple(np.array(0) if e is None else np.array(e, dtype=float) for e in eigs)
                 Yn = np.array(Y, dtype=float).reshape(sizes[i], sizes[j])
-                V = solve_sylvester_diagonal(ev)(sparse.csr_array(Yn) if carrier == "sparse" else Yn, (i, j))
+                # a sparse right-hand side in whatever layout products and slices of sparse blocks leave it: compressed rows or columns, coordinates, legacy matrices
+                fmt = [sparse.csr_array, sparse.csc_array, sparse.coo_array, sparse.csc_matrix, sparse.csr_matrix][c % 5]
+                if carrier == "sparse": dist["sparse layout " + fmt.__name__] = dist.get("sparse layout " + fmt.__name__, 0) + 1
+                V = solve_sylvester_diagonal(ev)(fmt(Yn) if carrier == "sparse" else Yn, (i, j))
                 V = V.toarray() if sparse.issparse(V) else np.asarray(V)
                 if not np.all(np.isfinite(V)):
                     failures.append(dict(desc, kind="non-finite-output")); continue
